@@ -9,3 +9,9 @@ chk("C01", "exploration",
     "Trusts the harness's own YAML rendering (parsed back by the implementation) and json-gold flattening of flat input; atoms other than minCount are covered only by the atom catalogue family.",
     "bounded exhaustive enumeration of formulas x truth assignments against a reference evaluator, on the real implementation",
     "DESIGN.md §3 C01")
+
+chk("C02", "exploration",
+    "Bounded-exhaustive enumeration of path expressions (every AST with <=3 leaves on all graphs with <=2 edges up to renaming, <=4 leaves on a collision suite; thorough: <=4 leaves everywhere and <=3 edges) with every node as focus node; the set of values and their count observed through `in` and `maxCount` traces are compared with a set-valued reference denotation.",
+    "Values restricted to IRIs and plain string literals; whitespace/parenthesis variants of the concrete syntax belong to C16.",
+    "bounded exhaustive enumeration of path ASTs x small graphs against a reference denotation, on the real implementation",
+    "DESIGN.md §3 C02")
